@@ -102,6 +102,34 @@ func sameHeld(a, b heldSet) bool {
 // names for call results.
 func pathOf(v ssa.Value) string { return pathOfD(v, 0) }
 
+// pathOfResolved: like pathOf, but a variable the closure only reads and that lift.go promoted in the declaring
+// function is named by what the declaring function assigned to it (the declaring function no longer reads the
+// variable's cell, so its own paths are those of the assigned values).
+var pathResolveCaptured = false
+
+func pathOfResolved(v ssa.Value) string {
+	old := pathResolveCaptured
+	pathResolveCaptured = true
+	defer func() { pathResolveCaptured = old }()
+	return pathOfD(v, 0)
+}
+
+// capturedRootPath: the enclosing function's path of the closure's captured variable `root` when lift.go promoted
+// it there; root itself otherwise (the enclosing function then names the variable's cell the same way).
+func capturedRootPath(f *ssa.Function, root string) string {
+	for _, fv := range f.FreeVars {
+		if fv.Name() != root {
+			continue
+		}
+		if al := boundCell(fv); al != nil && liftedCells[al] {
+			if s := capturedValue(fv); s != nil {
+				return pathOfD(s, 0)
+			}
+		}
+	}
+	return root
+}
+
 func pathOfD(v ssa.Value, d int) string {
 	if d > 40 {
 		return "v:" + v.Name()
@@ -120,6 +148,15 @@ func pathOfD(v ssa.Value, d int) string {
 		return "global:" + x.Name()
 	case *ssa.UnOp:
 		if x.Op == token.MUL {
+			// a variable the closure only reads, promoted in the declaring function (lift.go): the declaring function
+			// names it by what was assigned, so the closure must too
+			if fv, isFV := x.X.(*ssa.FreeVar); isFV && pathResolveCaptured {
+				if al := boundCell(fv); al != nil && liftedCells[al] {
+					if s := capturedValue(fv); s != nil {
+						return pathOfD(s, d+1)
+					}
+				}
+			}
 			return pathOfD(x.X, d+1)
 		}
 	case *ssa.FieldAddr:
@@ -285,7 +322,7 @@ func computeLockFlow(fn *ssa.Function, entry heldSet) *lockFlow {
 					lf.deferredUnlock[pathOf(x.Call.Args[0])] = true
 				} else if f := x.Call.StaticCallee(); f != nil && f.Blocks != nil && len(f.Blocks) <= 3 {
 					// defer func() { mu.Unlock() }()
-					allInstrs(f, func(i2 ssa.Instruction) {
+					allInstrsIn(f, func(i2 ssa.Instruction) {
 						if c2, ok := i2.(*ssa.Call); ok {
 							if op, ok := mutexOps[calleeKey(c2)]; ok && !op.acquire && len(c2.Call.Args) > 0 {
 								lf.deferredUnlock[pathOf(c2.Call.Args[0])] = true
@@ -519,12 +556,12 @@ func lockRule(c *Ctx, ru *Rule, spec lockSpec) {
 		if _, ex := spec.Exempt[fnKey(c.Root(f))]; ex {
 			continue
 		}
-		allInstrs(f, func(in ssa.Instruction) {
+		allInstrsIn(f, func(in ssa.Instruction) {
 			fa, ok := in.(*ssa.FieldAddr)
 			if !ok {
 				return
 			}
-			fld, base := fieldAddrOf(fa)
+			fld, base := fieldAddrOfRaw(fa)
 			if fld == nil {
 				return
 			}
@@ -535,7 +572,7 @@ func lockRule(c *Ctx, ru *Rule, spec lockSpec) {
 			}
 			// field of an anonymous struct nested by value: "outer.inner"
 			if ofa, ok := base.(*ssa.FieldAddr); ok {
-				ofld, obase := fieldAddrOf(ofa)
+				ofld, obase := fieldAddrOfRaw(ofa)
 				if ofld != nil {
 					op, on := typeNameOf(obase.Type())
 					dotted := ofld.Name() + "." + fld.Name()
@@ -671,7 +708,7 @@ func lockRule(c *Ctx, ru *Rule, spec lockSpec) {
 	addrTaken := map[*ssa.Function]bool{}
 	closureSites := map[*ssa.Function][]*ssa.MakeClosure{}
 	for _, f := range c.Fns {
-		allInstrs(f, func(in ssa.Instruction) {
+		allInstrsIn(f, func(in ssa.Instruction) {
 			if ci, ok := in.(ssa.CallInstruction); ok {
 				if cal := ci.Common().StaticCallee(); cal != nil {
 					if o := cal.Origin(); o != nil {
@@ -805,13 +842,13 @@ func lockRule(c *Ctx, ru *Rule, spec lockSpec) {
 					if !sync {
 						h = heldSet{}
 					}
-					checkAt(parent, mc, h, q.root, nil, "closure "+fnKey(f)+" created/used")
+					checkAt(parent, mc, h, capturedRootPath(f, q.root), nil, "closure "+fnKey(f)+" created/used")
 				}
 				if len(closureSites[f]) == 0 {
 					// a function literal without captured variables is a plain
 					// function value: find where the parent hands it out
 					used := false
-					allInstrs(parent, func(in ssa.Instruction) {
+					allInstrsIn(parent, func(in ssa.Instruction) {
 						for _, op := range in.Operands(nil) {
 							if op == nil || *op != ssa.Value(f) {
 								continue
